@@ -174,6 +174,15 @@ func cmdCheck(argv []string) int {
 				loadErrors = append(loadErrors, "no SSA function for "+n)
 				continue
 			}
+			if fc.InlineOnly {
+				if len(fc.Requires)+len(fc.Ensures)+len(fc.Modifies) > 0 {
+					loadErrors = append(loadErrors, "inline-only function "+n+" cannot carry requires/ensures/modifies")
+				}
+				dctx := &FnCtx{eng: eng, top: fn, fc: fc}
+				allObls = append(allObls, eng.ownObligations(fn, fc, dctx)...)
+				allObls = append(allObls, eng.lendObligations(fn, fc, dctx)...)
+				continue
+			}
 			ctx, err := eng.VerifyFunction(fn)
 			if err != nil {
 				rep.Error = err.Error()
@@ -422,7 +431,7 @@ func cmdCheck(argv []string) int {
 	)
 	var samples []map[string]string
 	for _, o := range allObls {
-		if o.Status == "unsat" && len(samples) < 6 && o.Kind != "cover" {
+		if o.Status == "unsat" && len(samples) < 6 && o.Kind != "cover" && o.Goal != nil {
 			g := o.Ctx.eng.ts.Show(o.Goal)
 			if len(g) > 600 {
 				g = g[:600] + " ..."
